@@ -46,8 +46,13 @@ Theorem C13_fit_defined : forall s a ok, snd (fit_step s a ok) <> Undefined.
 Proof. exact fit_step_defined. Qed.
 
 Theorem C13_fit_done : forall s a ok s',
-  fit_step s a ok = (s', Done) <-> fit_contract a = true /\ ok = true /\ s' = TFitted (orders a) (map fst (knotvecs a)).
+  fit_step s a ok = (s', Done) <->
+  fit_contract a = true /\ ok = true /\ s = TEmpty /\ s' = TFitted (orders a) (map fst (knotvecs a)).
 Proof. exact fit_step_done. Qed.
+
+(* a failure after the argument checks (the target already holds data; the solver fails) leaves the table as it was or empty *)
+Theorem C13_runtime_failure_unchanged_or_empty : forall s a ok s', fit_step s a ok = (s', ThrowRuntime) -> s' = s \/ s' = TEmpty.
+Proof. exact fit_step_runtime. Qed.
 
 (* The C wrapper returns 0 exactly when the C++ fit on the implied containers completed; every argument rejection
    and every null pointer is a return of 1 with the object unchanged. *)
@@ -89,8 +94,8 @@ Example ex_accept : fit_check ex_valid2 = Accept /\ fit_contract ex_valid2 = tru
 Proof. vm_compute. auto. Qed.
 Example ex_done : fit_step TEmpty ex_valid2 true = (TFitted [2; 1] [7; 6], Done).
 Proof. vm_compute. reflexivity. Qed.
-Example ex_solver_failure_changes_object : fit_step TEmpty ex_valid2 false = (TFitted [2; 1] [7; 6], ThrowRuntime).
-Proof. vm_compute. reflexivity. Qed.
+Example ex_solver_failure_leaves_empty : fit_step TEmpty ex_valid2 false = (TEmpty, ThrowRuntime) /\ fit_step (TFitted [2] [8]) ex_valid2 true = (TFitted [2] [8], ThrowRuntime).
+Proof. split; vm_compute; reflexivity. Qed.
 (* first error in source order: both the weights count and the knot count are wrong — the weights check comes first *)
 Example ex_first_error :
   fit_check (mk 8 [8] [7] 7 [8] [2] [(3, true)] [true] [2] None) = Reject (G GWeights) /\
@@ -123,6 +128,7 @@ Print Assumptions C13_reject_leaves_unchanged.
 Print Assumptions C13_reject_throws.
 Print Assumptions C13_fit_defined.
 Print Assumptions C13_fit_done.
+Print Assumptions C13_runtime_failure_unchanged_or_empty.
 Print Assumptions C13_c_wrapper.
 Print Assumptions C13_c_wrapper_reject.
 Print Assumptions C13_c_wrapper_nulls.
